@@ -29,6 +29,7 @@ import SwcVerif.Model.AlgoRunMst
 import SwcVerif.Model.AlgoRunParse
 import SwcVerif.Model.AlgoRunCut
 import SwcVerif.Model.AlgoRunRepair
+import SwcVerif.Model.AlgoRunAsc
 import SwcVerif.Model.Assemble
 
 def dispatch (op : String) (args : List String) : String :=
@@ -78,6 +79,7 @@ def dispatch (op : String) (args : List String) : String :=
   | "gsingleroot" => AlgoRun.handleSingleRoot args
   | "gnearest" => AlgoRun.handleNearest args
   | "greadfix" => AlgoRun.handleReadFix args
+  | "gasc" => AlgoRun.handleAsc args
   | "asm" => Asm.handle args
   | "gasm" => AlgoRun.handleAsm args
   | "swcline" => SwcText.handleLine args
